@@ -76,7 +76,12 @@ func (db *BoltMetaDB) ensureOpen(dir string) error {
 	//  4. Once that's committed, rename to final name and Fsync parent dir
 	_, err := os.Stat(fileName)
 	if err == nil {
-		// File exists, just open it
+		// File exists, just open it. An earlier init may have failed or crashed
+		// after the rename below but before the parent dir fsync, so make sure
+		// the file's name is persisted before we rely on what we commit to it.
+		if err := syncDir(dir); err != nil {
+			return fmt.Errorf("failed to fsync dir of %s: %w", FileName, err)
+		}
 		return open()
 	}
 	if !errors.Is(err, os.ErrNotExist) {
@@ -138,6 +143,10 @@ func safeInitBoltDB(dir string) error {
 
 	// And Fsync that parent dir to make sure the new new file with it's new name
 	// is persisted!
+	return syncDir(dir)
+}
+
+func syncDir(dir string) error {
 	dirF, err := os.Open(dir)
 	if err != nil {
 		return err
